@@ -197,6 +197,29 @@ Theorem C14_init_keep_refuted_for_unguarded_init :
 Proof. exact init_keep_refuted_for_unguarded_init. Qed.
 Print Assumptions C14_init_keep_refuted_for_unguarded_init.
 
+(** COUNTING STARTED AT EPOCH 0 (a definition imported with EpochCountingStarted = true, CurrentEpoch = 0): the advance
+    0 -> 1 is an ordinary advance, not the "very first tick": AfterEpochEnd(id,0) then BeforeEpochStart(id,1), seen by
+    every receiver behind the fan-out … *)
+Theorem C14_started_epoch_zero_advance_is_ordinary :
+  forall (t h : Z) (e : einfo) (k r : nat),
+    e_started e = true -> e_cur e = 0 -> should_tick e t = true -> (r < k)%nat ->
+    e_cur (fst (step_info t h e)) = 1 /\
+    snd (step_info t h e) = [AfterEnd (e_id e) 0; BeforeStart (e_id e) 1] /\
+    tick_hooks e = [AfterEnd (e_id e) 0; BeforeStart (e_id e) 1] /\
+    map snd (filter (fun x : nat * hook => Nat.eqb (fst x) r) (fanout k (snd (step_info t h e)))) =
+    [AfterEnd (e_id e) 0; BeforeStart (e_id e) 1].
+Proof. exact started_epoch_zero_advance_is_ordinary. Qed.
+Print Assumptions C14_started_epoch_zero_advance_is_ordinary.
+
+(** … and the variant whose MultiEpochHooks.AfterEpochEnd skips epoch number 0 ([fanout_v true]) loses that end hook. *)
+Theorem C14_end_of_epoch_zero_refuted_for_skipping_fanout :
+  exists (e : einfo) (t h : Z) (k r : nat),
+    wf_info t e /\ e_started e = true /\ (r < k)%nat /\ e_cur (fst (step_info t h e)) = e_cur e + 1 /\
+    map snd (filter (fun x : nat * hook => Nat.eqb (fst x) r) (fanout_v true k (snd (step_info t h e)))) <> tick_hooks e /\
+    map snd (filter (fun x : nat * hook => Nat.eqb (fst x) r) (fanout_v false k (snd (step_info t h e)))) = tick_hooks e.
+Proof. exact end_of_epoch_zero_refuted_for_skipping_fanout. Qed.
+Print Assumptions C14_end_of_epoch_zero_refuted_for_skipping_fanout.
+
 (** FAILING HOOKS.  One registered receiver panics on a chosen call (the first [lf] times).  The panic leaves
     BeginBlocker (no recover on the path: Gen/C14Oblig.v), the block is not committed: *)
 Theorem C14_hook_panic_aborts_block :
